@@ -230,6 +230,8 @@ CHECKS["C11"] = {
              what="wsConnection.init: 15 first-frame kinds x 6 payloads x 4 init-function behaviours x 2 subprotocols"),
         dict(_WS, harness="Harness_C11_subscribe", reach=["c11.sub.ran", "c11.sub.rejected"], quick={"sample_models": 40, "sample_every": 7},
              what="wsConnection.subscribe + its goroutine: verdict x 0..2 payloads x panic at step k x subscription error x 3 start payloads"),
+        dict(_WS, harness="Harness_C11_initTimeout", reach=["c11.timeout.fired"], sched_confirm=True, quick={"sample_models": 8},
+             what="wsConnection.init with InitTimeout: silent client or connection_init, the timer firing at any scheduling point: decided once, closed once, the helper goroutine ends"),
         dict(_WS, harness="Harness_C11_run", reach=["c11.run", "c11.run.op"], race=True, sched_confirm=True, workers=12,
              quick={"params": {"maxlen": 2}, "sample_models": 12, "sample_every": 97}, thorough={"params": {"maxlen": 3}, "sample_models": 30, "sample_every": 997},
              what="wsConnection.run on every client script of 1..2 [3] frames over a 9-frame alphabet, long-lived operations, a scheduling decision before every frame, race check"),
@@ -267,4 +269,9 @@ CHECKS["C04"]["harnesses"].append(
 CHECKS["C07"]["harnesses"].append(
     dict(_HTTP, harness="Harness_C07_noPersistentWrites", setup="Setup_C07_noPersistentWrites", reach=["c07.frozen"], no_native_samples=False, quick={"sample_models": 10, "sample_every": 9},
          what="after a warm-up request the server/executor/transport object graph and every package-level variable of gqlgen's graphql packages and of gqlparser are frozen: one request (4 transports x 10 documents x 2 header configurations) must not store into any of it"))
+
+
+CHECKS["C05"]["harnesses"].append(
+    dict(_WS, harness="Harness_C11_initTimeout", reach=["c11.timeout.fired"], sched_confirm=True, quick={"sample_models": 8},
+         what="websocket init timeout: no goroutine of the handshake survives the closed connection"))
 
